@@ -17,6 +17,7 @@ import (
 	"encoding/binary"
 	"encoding/json"
 	"fmt"
+	"github.com/brewlin/net-protocol/stack"
 	"net"
 	"runtime"
 	"sort"
@@ -97,6 +98,10 @@ type Case struct {
 	// with a transmit error. Such a reply is lost (its request counts as optional); every
 	// other request must still be answered.
 	Refuse []int `json:"refuse,omitempty"`
+	// Offload: the link advertises checksum offload (as the loopback and an fd-based endpoint
+	// with ChecksumOffload do). That exempts TCP and UDP checksums, nothing else: an echo
+	// reply still needs a valid ICMP checksum.
+	Offload bool `json:"offload,omitempty"`
 }
 
 // PingW is one Write on a ping socket.
@@ -576,6 +581,10 @@ func runOnce(c Case, deadline time.Duration, rec bool) (fail, miss *evid.Failure
 		mtu = 1500
 	}
 	tap := netsim.NewTap(uint32(mtu))
+	if c.Offload {
+		tap.Caps |= stack.CapabilityChecksumOffload
+		evid.Label("link-advertises-checksum-offload")
+	}
 	if c.Pad == 46 {
 		tap.PadMin = 46
 	} else if c.Pad > 0 {
@@ -1092,6 +1101,7 @@ func genCase(rt *rapid.T) Case {
 	var c Case
 	c.MTU = rapid.SampledFrom(mtus).Draw(rt, "mtu")
 	c.Pad = rapid.SampledFrom([]int{0, 0, 0, 46, 46, 1, 7}).Draw(rt, "linkpad")
+	c.Offload = rapid.IntRange(0, 3).Draw(rt, "offload") == 0
 	noOdd6 := evid.IsKnownListed("F7")
 	reqGen := func(fo *focus) *rapid.Generator[protoReq] {
 		return rapid.Custom(func(rt *rapid.T) protoReq { return genReq(rt, c.MTU, noOdd6, fo) })
